@@ -4,6 +4,7 @@ import (
 	"fmt"
 	"slices"
 	"sort"
+	"strconv"
 	"strings"
 
 	"github.com/OneOfOne/xxhash"
@@ -674,20 +675,21 @@ func (d *DataStore) appendIndexFromPrimaryKey(uniqRows map[string]bool, fil *Fil
 		switch fil.operator {
 		// name == <value>
 		case Equal:
-			uniqRows[fil.stringVal] = true
-
-			return true
-
-		// name =~ <value>
-		case EqualNocase:
-			uniqRows[fil.stringVal] = true
-			for _, key := range d.indexLowerCase[strings.ToLower(fil.stringVal)] {
-				uniqRows[key] = true
+			switch fil.column.DataType {
+			case IntCol, Int64Col:
+				// numeric keys are indexed by their canonical text, '01' must find '1'
+				if fil.isEmpty {
+					return false
+				}
+				uniqRows[strconv.FormatInt(fil.int64Value, 10)] = true
+			default:
+				uniqRows[fil.stringVal] = true
 			}
 
 			return true
 		default:
-			// other operators are not supported
+			// other operators are not supported,
+			// name =~ <value> cannot use the index because only the hosts table has a lower case index
 		}
 	case key + "_lc":
 		switch fil.operator {
